@@ -519,3 +519,79 @@ fn c09_encoder_finalize_counts() {
 // consumes the Box<dyn Iterator> returned by SeekTableInterval::filter through
 // try_extend/collect and sizes the table through the bit counter: neither
 // variant finished in 900 s at 2 seek points; outside the claim)
+
+// ===========================================================================
+// C01/C02: the constant and verbatim subframe writers (the encoder's fallback)
+// ===========================================================================
+
+macro_rules! c01_plain_subframe {
+    ($name:ident, $n:expr, $toks:expr, $constant:expr, $bps:expr, $wasted:expr) => {
+        #[kani::proof]
+        #[kani::unwind(8)]
+        fn $name() {
+            let bps: u32 = $bps;
+            let wasted: u32 = $wasted;
+            let eff = bps - wasted;
+            // the encoder hands the writer samples already shifted down by the wasted bits
+            let mut ch: [i32; $n] = kani::any();
+            let mut i = 0;
+            while i < $n {
+                let lo = -(1i64 << (eff - 1));
+                let hi = (1i64 << (eff - 1)) - 1;
+                kani::assume(i64::from(ch[i]) >= lo && i64::from(ch[i]) <= hi);
+                if $constant {
+                    ch[i] = ch[0];
+                }
+                i += 1;
+            }
+            let mut q = TokFifo::<$toks>::new();
+            let ebps = SignedBitCount::<32>::try_from(eff).unwrap();
+            let w = if $constant {
+                encode_constant_subframe(&mut q, ch[0], ebps, wasted)
+            } else {
+                encode_verbatim_subframe(&mut q, &ch, ebps, wasted)
+            };
+            assert!(w.is_ok() && !q.failed);
+            std::mem::forget(w);
+            // size: 8 header bits + wasted-bits code + payload
+            let payload = if $constant { u64::from(eff) } else { $n as u64 * u64::from(eff) };
+            assert!(q.wpos == 8 + u64::from(wasted) + payload);
+            // crate decoder
+            let mut back = [0i32; $n];
+            let mut q1 = q.rewound();
+            let r = <Hooks as DecodeHooks>::read_subframe_i32(&mut q1, bps, &mut back);
+            assert!(r.is_ok());
+            std::mem::forget(r);
+            assert!(q1.drained());
+            // RFC reference
+            let mut exp = [0i128; $n];
+            let mut q2 = q.rewound();
+            let v = refmodel::subframe(&mut q2, bps, $n, &mut exp);
+            assert!(v == refmodel::Verdict::Valid && q2.drained());
+            let mut i = 0;
+            while i < $n {
+                let want = i64::from(ch[i]) << wasted;
+                assert!(i64::from(back[i]) == want);
+                assert!(exp[i] == i128::from(want));
+                i += 1;
+            }
+        }
+    };
+}
+
+// @harness prop=C01,C02 tier=quick expect=pass timeout=900
+// @units encode::encode_verbatim_subframe stream::SubframeHeader::to_writer decode::read_subframe<32,i32>
+// @bound VERBATIM subframe of 3 samples at 16 bits with 3 wasted bits: every sample that fits the 13-bit effective width
+// @oracle the crate decoder and the RFC reference model both return sample << wasted for every sample and consume every bit; size == 8 + wasted + 3 x effective bits
+c01_plain_subframe!(c01_verbatim_writer_roundtrip_b16_w3, 3, 12, false, 16, 3);
+
+// @harness prop=C01,C02 tier=quick expect=pass timeout=900
+// @units encode::encode_verbatim_subframe decode::read_subframe<32,i32>
+// @bound VERBATIM subframe of 3 full-range samples at 32 bits, no wasted bits
+c01_plain_subframe!(c01_verbatim_writer_roundtrip_b32, 3, 12, false, 32, 0);
+
+// @harness prop=C01,C02 tier=quick expect=pass timeout=900
+// @units encode::encode_constant_subframe stream::SubframeHeader::to_writer decode::read_subframe<32,i32>
+// @bound CONSTANT subframe for a block of 3 at 8 bits with 1 wasted bit, any value that fits
+// @oracle decoder and reference model return the value << wasted three times; size == 8 + wasted + effective bits
+c01_plain_subframe!(c01_constant_writer_roundtrip_b8_w1, 3, 8, true, 8, 1);
